@@ -49,7 +49,105 @@ class KernelTranslator(ast.NodeVisitor):
         self.decls = []
         self.depth = 0
 
+    # -- straight-line interpretation of a property body -------------------------------------------------------------------------
+    # names and self._x attributes are bound to *cells* (so that aliases created by `b = a`, `out=a` or in-place operators see the same
+    # value, as numpy arrays do); a cell holds the SMT term of the array element
+    def tr_function(self, name):
+        self.depth += 1
+        if self.depth > 6:
+            raise SymError("kernel property recursion")
+        saved = getattr(self, "env", None), getattr(self, "cells", None)
+        self.env, self.cells = {}, {}
+        try:
+            out = self._run_block(self.props[name].body)
+            if out is None:
+                raise SymError("kernel %s does not return on the interpreted path" % name)
+            return out
+        finally:
+            self.env, self.cells = saved
+            self.depth -= 1
+
+    def _new_cell(self, term):
+        cid = len(self.cells)
+        self.cells[cid] = term
+        return cid
+
+    def _target_key(self, t):
+        if isinstance(t, ast.Name):
+            return t.id
+        if isinstance(t, ast.Attribute) and isinstance(t.value, ast.Name) and t.value.id == "self":
+            return "self." + t.attr
+        raise SymError("unsupported assignment target in kernel: %s" % ast.unparse(t))
+
+    def _value(self, node):
+        """(term, cell id or None): the cell is given when the expression denotes an existing array (a name, or a call writing into `out=`)."""
+        if isinstance(node, ast.Name) and node.id in self.env:
+            cid = self.env[node.id]
+            return self.cells[cid], cid
+        if isinstance(node, ast.Attribute) and isinstance(node.value, ast.Name) and node.value.id == "self" and ("self." + node.attr) in self.env:
+            cid = self.env["self." + node.attr]
+            return self.cells[cid], cid
+        if isinstance(node, ast.Call):
+            outs = [k for k in node.keywords if k.arg == "out"]
+            if outs:
+                bare = ast.Call(func=node.func, args=node.args, keywords=[k for k in node.keywords if k.arg != "out"])
+                term = self.tr(bare)
+                key = self._target_key(outs[0].value)
+                if key not in self.env:
+                    raise SymError("out= names an unknown array")
+                cid = self.env[key]
+                self.cells[cid] = term
+                return term, cid
+        return self.tr(node), None
+
+    def _run_block(self, stmts):
+        for st in stmts:
+            if isinstance(st, ast.Expr):
+                if isinstance(st.value, ast.Constant):
+                    continue            # docstring
+                self._value(st.value)   # a call for its effect (out=)
+            elif isinstance(st, ast.Assign) and len(st.targets) == 1:
+                term, cid = self._value(st.value)
+                self.env[self._target_key(st.targets[0])] = cid if cid is not None else self._new_cell(term)
+            elif isinstance(st, ast.AnnAssign) and st.value is not None:
+                term, cid = self._value(st.value)
+                self.env[self._target_key(st.target)] = cid if cid is not None else self._new_cell(term)
+            elif isinstance(st, ast.AugAssign):
+                key = self._target_key(st.target)
+                if key not in self.env:
+                    raise SymError("in-place operation on an unknown array %s" % key)
+                cid = self.env[key]
+                # the right operand is evaluated first (it may name the same array)
+                expr = ast.BinOp(left=ast.Name(id="__cell__", ctx=ast.Load()), op=st.op, right=st.value)
+                self.env["__cell__"] = cid
+                self.cells[cid] = self.tr(expr)
+                del self.env["__cell__"]
+            elif isinstance(st, ast.If):
+                t = st.test
+                neg = isinstance(t, ast.UnaryOp) and isinstance(t.op, ast.Not)
+                call = t.operand if neg else t
+                if isinstance(call, ast.Call) and getattr(call.func, "id", None) == "hasattr" and len(call.args) == 2 and isinstance(call.args[1], ast.Constant):
+                    cached = ("self." + str(call.args[1].value)) in self.env
+                    taken = (not cached) if neg else cached
+                    r = self._run_block(st.body if taken else st.orelse)
+                    if r is not None:
+                        return r
+                else:
+                    raise SymError("unsupported condition in kernel: %s" % ast.unparse(t))
+            elif isinstance(st, ast.Return):
+                return self._value(st.value)[0]
+            elif isinstance(st, ast.Pass):
+                continue
+            else:
+                raise SymError("unsupported statement in kernel: %s" % type(st).__name__)
+        return None
+
     def tr(self, node):
+        if isinstance(node, ast.Name) and getattr(self, "env", None) and node.id in self.env:
+            return self.cells[self.env[node.id]]
+        if isinstance(node, ast.Attribute) and isinstance(node.value, ast.Name) and node.value.id == "self" and getattr(self, "env", None) \
+                and ("self." + node.attr) in self.env:
+            return self.cells[self.env["self." + node.attr]]
         if isinstance(node, ast.BinOp):
             a, b = self.tr(node.left), None
             if isinstance(node.op, ast.Pow):
@@ -79,12 +177,7 @@ class KernelTranslator(ast.NodeVisitor):
             if node.attr == "t_array":
                 return "T"
             if node.attr in self.props:
-                self.depth += 1
-                if self.depth > 6:
-                    raise SymError("kernel property recursion")
-                t = self.tr(self.props[node.attr])
-                self.depth -= 1
-                return t
+                return self.tr_function(node.attr)
             raise SymError("unknown attribute self.%s in kernel" % node.attr)
         if isinstance(node, ast.Call):
             f = node.func
@@ -99,6 +192,17 @@ class KernelTranslator(ast.NodeVisitor):
                 if arg not in self.exps:
                     self.exps[arg] = "E%d" % len(self.exps)
                 return "(fp.sub RNE %s %s)" % (self.exps[arg], fp(1.0))
+            if fname in ("add", "subtract", "multiply", "divide", "true_divide") and len(node.args) == 2 and not node.keywords:
+                op = {"add": "fp.add", "subtract": "fp.sub", "multiply": "fp.mul", "divide": "fp.div", "true_divide": "fp.div"}[fname]
+                return "(%s RNE %s %s)" % (op, self.tr(node.args[0]), self.tr(node.args[1]))
+            if fname == "negative" and len(node.args) == 1 and not node.keywords:
+                return "(fp.neg %s)" % self.tr(node.args[0])
+            if fname == "square" and len(node.args) == 1 and not node.keywords:
+                a = self.tr(node.args[0])
+                return "(fp.mul RNE %s %s)" % (a, a)
+            if fname == "power" and len(node.args) == 2 and isinstance(node.args[1], ast.Constant) and node.args[1].value == 2 and not node.keywords:
+                a = self.tr(node.args[0])
+                return "(fp.mul RNE %s %s)" % (a, a)
             if fname in ("minimum", "maximum") and len(node.args) == 2:
                 a, b = self.tr(node.args[0]), self.tr(node.args[1])
                 # numpy.minimum / maximum propagate NaN (SMT-LIB fp.min / fp.max return the other operand)
@@ -137,7 +241,8 @@ EXP_FACTS = [
 
 
 def kernel_sources(ns):
-    """Return-expression ASTs of the LazyProperties Q, Q1, Q2 of the working tree."""
+    """The function definitions (AST) of the properties Q, Q1, Q2 of the working tree, whatever their shape: one return expression, or a
+    straight-line body with local names, in-place operators, `out=` arguments and a `hasattr` cache guard."""
     src = inspect.getsource(ns)
     tree = ast.parse(src)
     props = {}
@@ -145,25 +250,15 @@ def kernel_sources(ns):
         if isinstance(node, ast.ClassDef) and node.name == "LongitudinalElasticModulusPhononContribution":
             for item in node.body:
                 if isinstance(item, ast.FunctionDef) and item.name in ("Q", "Q1", "Q2"):
-                    rets = [n for n in ast.walk(item) if isinstance(n, ast.Return)]
-                    if len(rets) != 1:
-                        raise SymError("kernel %s is not a single return expression" % item.name)
-                    # allow simple local assignments before the return (x = expr) by inlining
-                    local = {}
-                    for st in item.body:
-                        if isinstance(st, ast.Assign) and len(st.targets) == 1 and isinstance(st.targets[0], ast.Name):
-                            local[st.targets[0].id] = st.value
-                    expr = rets[0].value
-                    if local:
-                        class Inl(ast.NodeTransformer):
-                            def visit_Name(self, n):
-                                return local.get(n.id, n)
-                        for _ in range(4):
-                            expr = Inl().visit(expr)
-                    props[item.name] = expr
+                    props[item.name] = item
     if set(props) != {"Q", "Q1", "Q2"}:
         raise SymError("could not locate the kernels Q, Q1, Q2 in nonshear.py")
     return props
+
+
+def kernel_text(fn_node):
+    body = [st for st in fn_node.body if not (isinstance(st, ast.Expr) and isinstance(st.value, ast.Constant) and isinstance(st.value.value, str))]
+    return "; ".join(ast.unparse(st) for st in body)[:400]
 
 
 def smt_query(kernel_term, tr, goal, extra=()):
@@ -229,7 +324,7 @@ def kernel_obligations(chk, ns, tier):
     for kname in ("Q", "Q1", "Q2"):
         tr = KernelTranslator(props, consts)
         try:
-            term = tr.tr(props[kname])
+            term = tr.tr_function(kname)
         except SymError as e:
             chk.inconclusive("kernel " + kname, str(e))
             continue
@@ -245,7 +340,7 @@ def kernel_obligations(chk, ns, tier):
             v, model = v2, model2
         chk.obligation("fp:%s finite for every omega in [%g,%g] cm^-1, T in [%g,%g] K" % (kname, W_LO, W_HI, T_LO, T_HI), v,
                        seconds=round(dt, 2), solver="cvc5 1.0 (binary)", logic="QF_FP", kind="fp-kernel",
-                       detail=dict(expression=ast.unparse(props[kname]), exp_applications=len(tr.exps)))
+                       detail=dict(expression=kernel_text(props[kname]), exp_applications=len(tr.exps)))
         if v == "sat":
             replay_kernel(chk, ns, kname, model)
         elif v != "unsat":
@@ -258,9 +353,9 @@ def kernel_obligations(chk, ns, tier):
         # (3) low-temperature limit: above the overflow threshold of exp the thermal kernels are (next to) zero
         if kname in ("Q1", "Q2"):
             trq = KernelTranslator(props, consts)
-            qterm = trq.tr(props["Q"])
+            qterm = trq.tr_function("Q")
             tr2 = KernelTranslator(props, consts)
-            term2 = tr2.tr(props[kname])
+            term2 = tr2.tr_function(kname)
             ql = smt_query(term2, tr2, "(not (fp.leq (fp.abs K) %s))" % fp(1e-290),
                            extra=["(assert (fp.gt %s %s))" % (qterm, fp(EXP_OVERFLOW + 0.01))])
             vl, modell, dtl = run_solver(ql, "cvc5", 120)
@@ -271,7 +366,7 @@ def kernel_obligations(chk, ns, tier):
                 replay_kernel(chk, ns, kname, modell, limit=True)
             elif vl != "unsat":
                 chk.inconclusive("fp:%s low-T" % kname, "unknown")
-    chk.sample(dict(kernel="Q2", expression=ast.unparse(props["Q2"]), query="exists omega,T in range: isNaN or isInf"))
+    chk.sample(dict(kernel="Q2", expression=kernel_text(props["Q2"]), query="exists omega,T in range: isNaN or isInf"))
 
 
 def one_mode_duck(w, T):
